@@ -88,7 +88,7 @@ TSnapE == /\ Ev("SnapE") /\ E.src \in Srcs
           /\ \A k \in DOMAIN E.vals :
                /\ k \in ViewKeys
                /\ LET G == GroupOf(k) IN
-                  /\ (Sum(lo[E.src], G) <= E.vals[k] \/ (FlushLossy /\ E.src = "statsd"))
+                  /\ (IF FlushLossy /\ E.src = "statsd" THEN TRUE ELSE Sum(lo[E.src], G) <= E.vals[k])
                   /\ last[E.src][k] <= E.vals[k]
                   /\ E.vals[k] <= Sum(cnt, G) + Sum(late, G) + Pending(G)
           /\ GaugeOK(E.gauge, wsB[E.src])
